@@ -302,6 +302,11 @@ class BaseParser(xml.sax.ContentHandler):
             schema = self._loader.loadURL(src)
             for n in schema.gettypenames():
                 self._schema.addtype(schema.gettype(n))
+            # the components that schema has pulled in have come along
+            # with its types: importing one of them again is a no-op
+            for c in schema.getcomponents():
+                if not self._schema.hasComponent(c):
+                    self._schema.addComponent(c)
         else:
             if os.path.dirname(filename):
                 self.error("file may not include a directory part")
